@@ -51,6 +51,10 @@ func (m *Msg) canonical() bool {
 			if w := tt.WidthOf(i); w >= 0 && len(v) > w {
 				return false
 			}
+			// the zero-padded numeric of {1120} is canonical only at full width (for {2000} validity implies it)
+			if k == "OutputMessageAccountabilityData" && tt.Elems[i].Path == "OutputSequenceNumber" && len(v) != 6 {
+				return false
+			}
 		}
 	}
 	return true
@@ -141,8 +145,36 @@ func init() {
 				}
 			}
 		}
+		// C10 / C04: framing and non-FAIM characters in every element of every tag, inside a whole message:
+		// whatever validation still accepts must be written and read back
+		hostile := []string{"*", "{", "}", "\n", "A*B", "A{1510}B", "A\nB", "A\r\nB", "\xc3\xa9", "A\tB"}
+		snames := sortedSampleNames(samples)
+		for _, tt := range tagTypes {
+			bl := bases[tt.Name]
+			if len(bl) == 0 {
+				continue
+			}
+			b := bl[len(bl)-1]
+			for i := range tt.Elems {
+				w := widths(tt)[i]
+				for _, h := range hostile {
+					if w >= 0 && len(h) > w {
+						continue
+					}
+					for _, sn := range snames {
+						m := samples[sn].Clone()
+						m.Tags[tt.Name] = tt.New(b.marker, setAt(b.vals, i, h))
+						if m.Validate() == "ok" {
+							msgs = append(msgs, m)
+							break
+						}
+					}
+				}
+			}
+		}
 		for _, m := range msgs {
 			canon := m.canonical()
+			note := framingIn(m)
 			for _, l := range layouts6 {
 				vs := "0"
 				if l.v {
@@ -157,11 +189,11 @@ func init() {
 				o.Case("prop:valid-writes", "same", args...)
 				text := string(unhexs(res[3:]))
 				// C07 shape facts
-				o.Case("prop:text-shape", textShape(text, l.nl, m), args...)
+				o.Case("prop:text-shape", annotate(textShape(text, l.nl, m), note), args...)
 				// C10: whatever validation accepted, the reader accepts back
 				back, rres := readText(text, m.Opts)
 				if back == nil {
-					o.Case("prop:valid-reads-back", "differ:"+short(rres), args...)
+					o.Case("prop:valid-reads-back", annotate("differ:"+short(rres), note), args...)
 					continue
 				}
 				o.Case("prop:valid-reads-back", "same", args...)
@@ -170,22 +202,22 @@ func init() {
 					if msgKey(back) == msgKey(m) {
 						o.Case("prop:write-read", "same", args...)
 					} else {
-						o.Case("prop:write-read", "differ:"+firstDiff(m, back), args...)
+						o.Case("prop:write-read", annotate("differ:"+firstDiff(m, back), note), args...)
 					}
 				}
 				// C02: read -> write -> read stable, second write byte-identical
 				res2, _ := back.Write(l.v, l.nl)
 				if !strings.HasPrefix(res2, "ok:") {
-					o.Case("prop:read-write-read", "differ:rewrite-refused", args...)
+					o.Case("prop:read-write-read", annotate("differ:rewrite-refused", note), args...)
 					continue
 				}
 				text2 := string(unhexs(res2[3:]))
 				back2, _ := readText(text2, m.Opts)
 				switch {
 				case back2 == nil:
-					o.Case("prop:read-write-read", "differ:reread-failed", args...)
+					o.Case("prop:read-write-read", annotate("differ:reread-failed", note), args...)
 				case msgKey(back2) != msgKey(back):
-					o.Case("prop:read-write-read", "differ:"+firstDiff(back, back2), args...)
+					o.Case("prop:read-write-read", annotate("differ:"+firstDiff(back, back2), note), args...)
 				default:
 					res3, _ := back2.Write(l.v, l.nl)
 					if res3 != res2 {
@@ -459,4 +491,27 @@ func errorPositions(segs []string, sep string) string {
 		}
 	}
 	return "same"
+}
+
+// framingIn names the first element of the message that holds a framing character ('*', '{', '}', a line
+// break) or a byte outside printable ASCII - values that element validation is expected to have rejected.
+func framingIn(m *Msg) string {
+	for _, k := range sortedKeys(m.Tags) {
+		tt := tagByName[k]
+		for i, v := range tt.Vals(m.Tags[k]) {
+			for j := 0; j < len(v); j++ {
+				if c := v[j]; c == '*' || c == '{' || c == '}' || c < 0x20 || c > 0x7e {
+					return k + "." + tt.Elems[i].Path
+				}
+			}
+		}
+	}
+	return ""
+}
+
+func annotate(res, note string) string {
+	if note == "" || !strings.HasPrefix(res, "differ") {
+		return res
+	}
+	return res + " [non-FAIM character in " + note + "]"
 }
